@@ -298,6 +298,33 @@ def _ord(k: int) -> str:
     return {1: '1st', 2: '2nd', 3: '3rd'}.get(k, f'{k}th')
 
 
+def super_calls_same_method(ctx, py):
+    """every interpreter class that refines an interpreter call through `super()` must call the SAME method with its own
+    parameters in order: an override that delegates to a sibling method (ssubst -> super().esubst) gives that one interpreter a
+    different meaning from all the others"""
+    base = py.cls('Interpreter', 'interpreter')
+    n = 0
+    for ci in py.subclasses(base):
+        for mname, fn in ci.methods.items():
+            if mname not in PM.INTERP_METHODS:
+                continue
+            params = [a.arg for a in fn.args.args[1:]]
+            for node in ast.walk(fn):
+                if isinstance(node, ast.Call) and isinstance(node.func, ast.Attribute) and isinstance(node.func.value, ast.Call) \
+                        and isinstance(node.func.value.func, ast.Name) and node.func.value.func.id == 'super' and node.func.attr in PM.INTERP_METHODS:
+                    n += 1
+                    args = [ast.unparse(a) for a in node.args] + [f'{k.arg}={ast.unparse(k.value)}' for k in node.keywords]
+                    want_pos = params[:len(node.args)]
+                    kw_ok = all(k.arg in params and ast.unparse(k.value) == k.arg for k in node.keywords)
+                    ok = node.func.attr == mname and [ast.unparse(a) for a in node.args] == want_pos and kw_ok \
+                        and len(node.args) + len(node.keywords) == len(params)
+                    ctx.ob('super-same-method', f'{ci.name}.{mname}', ok,
+                           f'{ci.name}.{mname} delegates to super().{node.func.attr}({", ".join(args)}); an interpreter refines a call by calling '
+                           f'the same method of its parent with the same arguments ({mname}({", ".join(params)}))', py.where(ci.module, node))
+    ctx.analysed['super() delegations of interpreter calls'] = n
+    ctx.floor('super-same-method', 60)
+
+
 def tracker_compares_structurally(ctx, py, w):
     """the tracking interpreters check that the caller's terms are the tracked ones with `==` (structural, sees through notation);
     an identity test accepts strictly fewer calls than the other interpreters do (equal terms built twice, e.g. by a transformer)"""
@@ -335,6 +362,17 @@ def run(ctx):
                f'interpreter and trips the tracker', py.where(w.stateful.module, mf.node))
     walk_order(ctx, py, w)
     tracker_compares_structurally(ctx, py, w)
+    super_calls_same_method(ctx, py)
+    # an interpreter whose state is shared between its instances behaves differently from the others once a second instance
+    # exists (its symbol numbering / memory continues): the instance state of every interpreter class is per instance
+    from .c18 import shared_class_state
+    base = py.cls('Interpreter', 'interpreter')
+    names = {c.name for c in py.subclasses(base)} | {'Interpreter'}
+    for mname, c, attr, node in shared_class_state(py, names):
+        ctx.ob('instance-state', f'{c.name}.{attr}', False,
+               f'{c.name}.{attr} is a class-level mutable object mutated through instances: every {c.name} in the process shares it, so a '
+               f'fresh {c.name} continues where the previous one stopped while the other interpreters start clean', py.where(mname, node))
+    ctx.ob('instance-state', 'scan', True, f'{len(names)} interpreter classes examined', '')
     ctx.floor('proved-confinement', 10)
     ctx.floor('forwarding', 26)
     ctx.floor('static-conclusion', 9)
